@@ -152,9 +152,30 @@ func obsCond(c stackage.Condition) string {
 		}
 		// through the Condition into the Stack it holds, as a parent's Traverse does
 		tv, tok := stackage.And().Push(c).Traverse(0, 0)
-		return fmt.Sprintf("K%s O%s X%s V%s R%s N%s G%s S%s T%s:%s", hx(c.Keyword()), opStr(c.Operator()), Short(c.Expression()), v, e,
+		return fmt.Sprintf("K%s O%s X%s V%s R%s N%s G%s S%s T%s:%s", hx(c.Keyword()), opStr(c.Operator()), Short(c.Expression())+formTag(c.Expression()), v, e,
 			b01(c.CanNest()), b01(c.IsNesting()), hx(c.String()), Short(tv), b01(tok))
 	})
+}
+
+// formTag: in which form a Stack / Condition is held (Expression returns the argument that was accepted, not its
+// native twin): n native, a / as alias without / with its own String, p pointer to an alias
+func formTag(x any) string {
+	if _, ok := stackage.ConvertStack(x); !ok {
+		if _, ok := stackage.ConvertCondition(x); !ok {
+			return ""
+		}
+	}
+	switch x.(type) {
+	case stackage.Stack, stackage.Condition:
+		return ":n"
+	case AStack, ACond:
+		return ":a"
+	case SStack, SCond:
+		return ":as"
+	case *AStack, *ACond:
+		return ":p"
+	}
+	return ":?"
 }
 
 func runCondHist(payload string) string {
